@@ -10,7 +10,8 @@
 //                      redirected to pipes (ops sstart/srecv/sstop; the op protocol itself runs
 //                      on duplicates of the original fds);
 //           pass = one drained loop pass; teardown = destroy services, Terminal, then the Loop
-//           WITHOUT draining first (a host shutting down while an exit task is queued);
+//           WITHOUT draining first (a host shutting down while an exit task is queued); passdown = one loop
+//           pass whose last task destroys services and Terminal (shutdown in the same pass as a client's exit);
 //           probe command nodes, node-tree ops, split (util::SplitCmdline directly).
 //  world B: Telnetd::Impl / TcpRpc::Impl against a recording TerminalInteract (framing events).
 //  mode `dump`: the key scanner's complete transition table (BFS over reachable step_ values
@@ -171,8 +172,8 @@ struct WorldA {
         char buf[4096];
         for (;;) { ssize_t n = ::read(out_r, buf, sizeof buf); if (n <= 0) break; tx(7, buf, (size_t)n); }
     }
-    void destroy(bool drain) {
-        if (drain) { pass(); drain_stdout(); clear_events(); }
+    // the host destroys the services and the terminal (the loop stays)
+    void destroy_services() {
         bool had_stdio = stdio != nullptr;
         delete stdio; stdio = nullptr;
         if (in_w >= 0) { ::close(in_w); ::close(out_r); in_w = out_r = -1; }
@@ -180,7 +181,18 @@ struct WorldA {
         delete tel; delete rpc; tel = nullptr; rpc = nullptr;
         for (auto &c : cli) g_ct_slot.erase(c.ct);
         delete term; term = nullptr;
+    }
+    void destroy(bool drain) {
+        if (drain) { pass(); drain_stdout(); clear_events(); }
+        destroy_services();
         delete loop; loop = nullptr;        // runs / drops whatever is still queued
+    }
+    // one loop pass in which, after the tasks queued so far, the host destroys the services and the terminal;
+    // what those tasks queued (the front ends' disconnect tasks) is still in the loop when they die
+    void pass_and_destroy() {
+        loop->runNext([this] { drain_stdout(); destroy_services(); }, "verif-teardown-in-pass");
+        loop->runLoop(event::Loop::Mode::kOnce);
+        delete loop; loop = nullptr;
     }
     // the order a host program should keep (drain, then destroy), silently
     ~WorldA() { if (loop) destroy(true); }
@@ -395,11 +407,16 @@ int main(int argc, char **argv) {
         } else if (op == "pass" && w.size() == 1) {
             A->pass(); A->drain_stdout();
             ev("P pass");
-        } else if (op == "teardown" && w.size() == 1 && A->front_end_pending == 0) {
+        } else if (op == "teardown" && w.size() == 1) {
             A->destroy(false);
             A.reset(new WorldA());
             g_A = A.get();
             ev("P teardown");
+        } else if (op == "passdown" && w.size() == 1) {
+            A->pass_and_destroy();
+            A.reset(new WorldA());
+            g_A = A.get();
+            ev("P passdown");
         } else if (op == "opt" && w.size() == 2 && vh::to_u64(w[1], n) && n < 4 && A->opened[c]) {
             A->term->setOptions(A->conn[c].tok, (uint32_t)n);
             ev("P opt=" + std::to_string(A->term->getOptions(A->conn[c].tok)));
